@@ -2,7 +2,7 @@ import QtyModel.Ops
 import QtyModel.Rate
 import QtyModel.Generated.Algos
 /-
-  Tie between code and model for the ALGORITHMS (which trait method `==`, `partial_cmp`, `+`, `-`, `/` of a quantity type WITH a reference unit forward to).
+  Tie between code and model for the ALGORITHMS (which trait method `==` and `partial_cmp` of a quantity type WITHOUT reference unit forward to).
 
   `Generated/Algos.lean` is re-emitted from the Rust source on every run
   (tools/translate_algos.py).  Every theorem below states that the re-emitted definition IS the
@@ -16,10 +16,7 @@ set_option linter.unusedSectionVars false
 variable {A U V W : Type} [DecidableEq U] [DecidableEq V] [DecidableEq W]
 variable (R : Arith A) (T : QT A U)
 
-theorem withRef_eq (a b : Q A U) : Kind.withRef.eq R T a b = hrEq R T a b := rfl
-theorem withRef_partial_cmp (a b : Q A U) : Kind.withRef.partial_cmp R T a b = hrPcmp R T a b := rfl
-theorem withRef_add (a b : Q A U) : Kind.withRef.add R T a b = hrAdd R T a b := rfl
-theorem withRef_sub (a b : Q A U) : Kind.withRef.sub R T a b = hrSub R T a b := rfl
-theorem withRef_div (a b : Q A U) : Kind.withRef.div R T a b = hrDiv R T a b := rfl
+theorem noRef_eq (a b : Q A U) : Kind.noRef.eq R T a b = nrEq R a b := rfl
+theorem noRef_partial_cmp (a b : Q A U) : Kind.noRef.partial_cmp R T a b = nrPcmp R a b := rfl
 
 end Qty.AlgoTie
